@@ -163,9 +163,11 @@ package flushable
 //@ // wmark(w, at, prefix, id, key): the writer op number 'at' is a successful Put of the mark (prefix, id) under key
 //@ spec wmark(at int, prefix int, id []byte, key []byte) bool = gWrOpKind[at] == 1 && gWrOpErr[at] == nil && gWrOpKey[at] == key && isMark(gWrOpVal[at], prefix, id)
 //@ // (call ordinals follow the SSA block order: MarkFlushID[1] is the clean mark of the last loop, MarkFlushID[2] the dirty mark)
+//@ // wOK(w): a registered wrapper is a lazy flushable with an (opened or placeholder) underlying store and a well-formed overlay
+//@ spec wOK(w *closeDropWrapped) bool = w != nil && w.LazyFlushable != nil && w.LazyFlushable.Flushable != nil && w.LazyFlushable.Flushable.underlying != nil && w.LazyFlushable.Flushable.sizeEstimation != nil && (w.LazyFlushable.Flushable.flushableReader.modified != nil ==> ovOK(w.LazyFlushable.Flushable.flushableReader.modified))
 //@ func (*SyncedPool).flush
-//@   requires p != nil && p.queuedDrops != nil && len(id) <= 4611686018427387904 && forall(n string, has(p.wrappers, n) ==> p.wrappers[n].Flushable != nil && p.wrappers[n].Flushable.LazyFlushable != nil && p.wrappers[n].Flushable.LazyFlushable.Flushable != nil)
-//@   modifies p.queuedDrops, p.wrappers[*], gRealCloseN, gDroperDropN, gDroperDropRecv, gInitN, gInitRecv, gInitR0, gInitR1, gLFlushN, gLFlushRecv, gLFlushR0, gDMat[*], gCMat[*], gFlAt[*], gKeyValueWriterPutN, gKeyValueWriterPutRecv, gKeyValueWriterPutA0, gKeyValueWriterPutA1, gKeyValueWriterPutR0, gWrOpN, gWrOpKind[*], gWrOpRecv[*], gWrOpKey[*], gWrOpVal[*], gWrOpErr[*]
+//@   requires p != nil && p.queuedDrops != nil && len(id) <= 4611686018427387904 && forall(n string, has(p.wrappers, n) ==> wOK(p.wrappers[n].Flushable))
+//@   modifies p.queuedDrops, p.wrappers[*], gRealCloseN, gDroperDropN, gDroperDropRecv, gInitN, gInitRecv, gInitR0, gInitR1, gLFlushN, gLFlushRecv, gLFlushR0, gDMat[*], gCMat[*], gFlAt[*], gKeyValueWriterPutN, gKeyValueWriterPutRecv, gKeyValueWriterPutA0, gKeyValueWriterPutA1, gKeyValueWriterPutR0, gWrOpN, gWrOpKind[*], gWrOpRecv[*], gWrOpKey[*], gWrOpVal[*], gWrOpErr[*], gProdN, gProdR0, gProdR1, all(Flushable).underlying, all(flushableReader).underlying, all(LazyFlushable).producer, tHas[*], tVal[*], tN[*], tKey[*], tNode[*], allcells(int), gBatcherNewBatchN, gBatcherNewBatchRecv, gBatcherNewBatchR0, gBatchValueSizeN, gBatchValueSizeRecv, gBatchValueSizeR0, gBatchWriteN, gBatchWriteRecv, gBatchWriteR0, gBatchResetN, gBatchResetRecv, gKeyValueWriterDeleteN, gKeyValueWriterDeleteRecv, gKeyValueWriterDeleteA0, gKeyValueWriterDeleteR0
 //@   at call flushable.MarkFlushID[2] ghost gDMat[w.Flushable] = ite(gWrOpErr[gWrOpN - 1] == nil && gWrOpRecv[gWrOpN - 1] == gInitR0 && gInitRecv == w.Flushable.LazyFlushable && wmark(gWrOpN - 1, 222, id, p.flushIDKey), gWrOpN - 1, -1) after
 //@   at call flushable.LazyFlushable).Flush[1] requires [alldirty] forall(n string, has(p.wrappers, n) ==> gDMat[p.wrappers[n].Flushable] >= old(gWrOpN))
 //@   at call flushable.LazyFlushable).Flush[1] ghost gFlAt[wrapper.Flushable] = ite(gLFlushR0 == nil && gLFlushRecv == wrapper.Flushable.LazyFlushable, gLFlushN - 1, -1) after
@@ -175,13 +177,21 @@ package flushable
 //@   ensures  [dropped] forall(n string, has(p.wrappers, n) ==> old(has(p.wrappers, n)) && p.wrappers[n] == old(p.wrappers[n]))
 //@   loop 1 modifies p.wrappers[*], gRealCloseN, gDroperDropN, gDroperDropRecv
 //@   loop 1 invariant 0 <= _k && _k <= len(queuedDropsList) && forall(n string, has(p.wrappers, n) ==> old(has(p.wrappers, n)) && p.wrappers[n] == old(p.wrappers[n]))
-//@   loop 2 modifies gInitN, gInitRecv, gInitR0, gInitR1, gDMat[*], gKeyValueWriterPutN, gKeyValueWriterPutRecv, gKeyValueWriterPutA0, gKeyValueWriterPutA1, gKeyValueWriterPutR0, gWrOpN, gWrOpKind[*], gWrOpRecv[*], gWrOpKey[*], gWrOpVal[*], gWrOpErr[*]
+//@   loop 2 modifies gInitN, gInitRecv, gInitR0, gInitR1, gProdN, gProdR0, gProdR1, all(Flushable).underlying, all(flushableReader).underlying, all(LazyFlushable).producer, gDMat[*], gKeyValueWriterPutN, gKeyValueWriterPutRecv, gKeyValueWriterPutA0, gKeyValueWriterPutA1, gKeyValueWriterPutR0, gWrOpN, gWrOpKind[*], gWrOpRecv[*], gWrOpKey[*], gWrOpVal[*], gWrOpErr[*]
 //@   loop 2 invariant gWrOpN >= old(gWrOpN) && forall(n string, _visited[n] ==> gDMat[p.wrappers[n].Flushable] >= old(gWrOpN) && gDMat[p.wrappers[n].Flushable] < gWrOpN)
-//@   loop 3 modifies gLFlushN, gLFlushRecv, gLFlushR0, gFlAt[*]
-//@   loop 3 invariant gLFlushN >= old(gLFlushN) && forall(n string, _visited[n] ==> gFlAt[p.wrappers[n].Flushable] >= old(gLFlushN))
-//@   loop 4 modifies gInitN, gInitRecv, gInitR0, gInitR1, gCMat[*], gKeyValueWriterPutN, gKeyValueWriterPutRecv, gKeyValueWriterPutA0, gKeyValueWriterPutA1, gKeyValueWriterPutR0, gWrOpN, gWrOpKind[*], gWrOpRecv[*], gWrOpKey[*], gWrOpVal[*], gWrOpErr[*]
+//@   loop 2 invariant [wok] forall(n string, has(p.wrappers, n) ==> wOK(p.wrappers[n].Flushable))
+//@   loop 3 modifies gLFlushN, gLFlushRecv, gLFlushR0, gFlAt[*], gKeyValueWriterPutN, gKeyValueWriterPutRecv, gKeyValueWriterPutA0, gKeyValueWriterPutA1, gKeyValueWriterPutR0, gWrOpN, gWrOpKind[*], gWrOpRecv[*], gWrOpKey[*], gWrOpVal[*], gWrOpErr[*], gProdN, gProdR0, gProdR1, all(Flushable).underlying, all(flushableReader).underlying, all(LazyFlushable).producer, tHas[*], tVal[*], tN[*], tKey[*], tNode[*], allcells(int), gBatcherNewBatchN, gBatcherNewBatchRecv, gBatcherNewBatchR0, gBatchValueSizeN, gBatchValueSizeRecv, gBatchValueSizeR0, gBatchWriteN, gBatchWriteRecv, gBatchWriteR0, gBatchResetN, gBatchResetRecv, gKeyValueWriterDeleteN, gKeyValueWriterDeleteRecv, gKeyValueWriterDeleteA0, gKeyValueWriterDeleteR0
+//@   loop 3 invariant gLFlushN >= old(gLFlushN) && forall(n string, has(p.wrappers, n) ==> !_visited[n] || gFlAt[p.wrappers[n].Flushable] >= old(gLFlushN))
+//@   loop 3 invariant [wok1] forall(n string, has(p.wrappers, n) ==> p.wrappers[n].Flushable != nil && p.wrappers[n].Flushable.LazyFlushable != nil && p.wrappers[n].Flushable.LazyFlushable.Flushable != nil && p.wrappers[n].Flushable.LazyFlushable.Flushable.underlying != nil && p.wrappers[n].Flushable.LazyFlushable.Flushable.sizeEstimation != nil)
+//@   loop 3 hint assert forall(t *redblacktree.Tree, t != wrapper.Flushable.LazyFlushable.Flushable.flushableReader.modified ==> tHas[t] == iterold(tHas[t]) && tVal[t] == iterold(tVal[t]) && tN[t] == iterold(tN[t]) && tKey[t] == iterold(tKey[t]))
+//@   loop 3 hint assert forall(f *flushableReader, f.modified == iterold(f.modified))
+//@   loop 3 invariant [wok2] forall(n string, has(p.wrappers, n) && p.wrappers[n].Flushable.LazyFlushable.Flushable.flushableReader.modified != nil ==> ovOK(p.wrappers[n].Flushable.LazyFlushable.Flushable.flushableReader.modified))
+//@   loop 3 invariant [marks] gWrOpN >= atentry(gWrOpN) && forall(n string, has(p.wrappers, n) ==> gDMat[p.wrappers[n].Flushable] >= old(gWrOpN) && gDMat[p.wrappers[n].Flushable] < atentry(gWrOpN))
+//@   loop 4 modifies gInitN, gInitRecv, gInitR0, gInitR1, gProdN, gProdR0, gProdR1, all(Flushable).underlying, all(flushableReader).underlying, all(LazyFlushable).producer, gCMat[*], gKeyValueWriterPutN, gKeyValueWriterPutRecv, gKeyValueWriterPutA0, gKeyValueWriterPutA1, gKeyValueWriterPutR0, gWrOpN, gWrOpKind[*], gWrOpRecv[*], gWrOpKey[*], gWrOpVal[*], gWrOpErr[*]
 //@   loop 4 invariant gWrOpN >= atentry(gWrOpN) && forall(n string, _visited[n] ==> gCMat[p.wrappers[n].Flushable] >= atentry(gWrOpN))
-//@   loop 4 invariant forall(n string, has(p.wrappers, n) ==> gDMat[p.wrappers[n].Flushable] < atentry(gWrOpN) && gDMat[p.wrappers[n].Flushable] >= old(gWrOpN) && gFlAt[p.wrappers[n].Flushable] >= old(gLFlushN))
+//@   loop 4 invariant [dm] forall(n string, has(p.wrappers, n) ==> gDMat[p.wrappers[n].Flushable] < atentry(gWrOpN) && gDMat[p.wrappers[n].Flushable] >= old(gWrOpN))
+//@   loop 4 invariant [fl] forall(n string, has(p.wrappers, n) ==> gFlAt[p.wrappers[n].Flushable] >= old(gLFlushN))
+//@   loop 4 invariant [wok] forall(n string, has(p.wrappers, n) ==> wOK(p.wrappers[n].Flushable))
 //@
 //@ // ---- flush (C22): every overlay entry is handed to ONE batch of the underlying store, in ascending key order: a
 //@ // tombstone as Delete(key), a value as Put(key, value), with the key's bytes; the batch is written when it grows
@@ -192,6 +202,7 @@ package flushable
 //@ func (*Flushable).flush
 //@   requires w != nil && w.underlying != nil && w.sizeEstimation != nil && (w.flushableReader.modified != nil ==> ovOK(w.flushableReader.modified))
 //@   modifies tHas[w.flushableReader.modified], tVal[w.flushableReader.modified], tN[w.flushableReader.modified], tKey[w.flushableReader.modified], tNode[w.flushableReader.modified], deref(w.sizeEstimation), gBatcherNewBatchN, gBatcherNewBatchRecv, gBatcherNewBatchR0, gBatchValueSizeN, gBatchValueSizeRecv, gBatchValueSizeR0, gBatchWriteN, gBatchWriteRecv, gBatchWriteR0, gBatchResetN, gBatchResetRecv, gKeyValueWriterPutN, gKeyValueWriterPutRecv, gKeyValueWriterPutA0, gKeyValueWriterPutA1, gKeyValueWriterPutR0, gKeyValueWriterDeleteN, gKeyValueWriterDeleteRecv, gKeyValueWriterDeleteA0, gKeyValueWriterDeleteR0, gWrOpN, gWrOpKind[*], gWrOpRecv[*], gWrOpKey[*], gWrOpVal[*], gWrOpErr[*]
+//@   ensures  [wf] gWrOpN >= old(gWrOpN) && gBatchWriteN >= old(gBatchWriteN) && (w.flushableReader.modified != nil ==> ovOK(w.flushableReader.modified))
 //@   ensures  [closed] w.flushableReader.modified == nil ==> result == errClosed && gWrOpN == old(gWrOpN) && gBatchWriteN == old(gBatchWriteN)
 //@   ensures  [batch] w.flushableReader.modified != nil ==> gBatcherNewBatchN == old(gBatcherNewBatchN) + 1 && gBatcherNewBatchRecv == w.underlying && gBatchResetN >= old(gBatchResetN) + 1
 //@   ensures  [ops] w.flushableReader.modified != nil && result == nil ==> gWrOpN == old(gWrOpN) + old(tN[w.flushableReader.modified]) && forall(i, 0, old(tN[w.flushableReader.modified]), opIs(old(gWrOpN) + i, old(tKey[w.flushableReader.modified][i]), old(tVal[w.flushableReader.modified][tKey[w.flushableReader.modified][i]]), gBatcherNewBatchR0))
@@ -200,7 +211,7 @@ package flushable
 //@   ensures  [kept] w.flushableReader.modified != nil && result != nil && !(gBatchWriteN >= old(gBatchWriteN) + 1 && gWrOpN == old(gWrOpN) + old(tN[w.flushableReader.modified])) ==> tN[w.flushableReader.modified] == old(tN[w.flushableReader.modified]) && forall(k string, tHas[w.flushableReader.modified][k] == old(tHas[w.flushableReader.modified][k]) && tVal[w.flushableReader.modified][k] == old(tVal[w.flushableReader.modified][k]))
 //@   loop 1 modifies it.node, it.position, itIdx[it], gBatchValueSizeN, gBatchValueSizeRecv, gBatchValueSizeR0, gBatchWriteN, gBatchWriteRecv, gBatchWriteR0, gBatchResetN, gBatchResetRecv, gKeyValueWriterPutN, gKeyValueWriterPutRecv, gKeyValueWriterPutA0, gKeyValueWriterPutA1, gKeyValueWriterPutR0, gKeyValueWriterDeleteN, gKeyValueWriterDeleteRecv, gKeyValueWriterDeleteA0, gKeyValueWriterDeleteR0, gWrOpN, gWrOpKind[*], gWrOpRecv[*], gWrOpKey[*], gWrOpVal[*], gWrOpErr[*]
 //@   loop 1 invariant it.tree == w.flushableReader.modified && (it.position == 0 || it.position == 1) && (it.position == 1 ==> 0 <= itIdx[it] && itIdx[it] < tN[it.tree])
-//@   loop 1 invariant gWrOpN == old(gWrOpN) + itCur(it) + 1 && gBatchWriteN >= old(gBatchWriteN) && gBatchResetN >= old(gBatchResetN)
+//@   loop 1 invariant gWrOpN == old(gWrOpN) + itCur(it) + 1 && gBatchWriteN >= old(gBatchWriteN) && gBatchResetN >= old(gBatchResetN) && itCur(it) >= -1
 //@   loop 1 invariant forall(i, 0, itCur(it) + 1, opIs(old(gWrOpN) + i, tKey[it.tree][i], tVal[it.tree][tKey[it.tree][i]], batch))
 //@
 //@ // ---- batches of the flushable store: a list of private copies; a nil value marks a deletion ----
@@ -376,8 +387,9 @@ package flushable
 //@   ghost gInitR0 = result0
 //@   ghost gInitR1 = result1
 //@   ensures  [opened] !old(lazyp(w)) ==> result0 == old(w.Flushable.underlying) && result1 == nil && gProdN == old(gProdN)
-//@   ensures  [ok] old(lazyp(w)) && gProdR1 == nil ==> result0 == gProdR0 && result1 == nil && w.Flushable.underlying == gProdR0 && w.Flushable.flushableReader.underlying == gProdR0 && w.producer == nil
+//@   ensures  [ok] old(lazyp(w)) && gProdR1 == nil ==> result0 == gProdR0 && result0 != nil && result1 == nil && w.Flushable.underlying == gProdR0 && w.Flushable.flushableReader.underlying == gProdR0 && w.producer == nil
 //@   ensures  [failed] old(lazyp(w)) && gProdR1 != nil ==> result0 == nil && result1 == gProdR1 && w.Flushable.underlying == old(w.Flushable.underlying) && w.producer == old(w.producer)
+//@   ensures  [keeps] old(w.Flushable.underlying) != nil ==> w.Flushable.underlying != nil
 //@   ensures  [nonnil] result1 == nil && old(w.Flushable.underlying) != nil ==> result0 != nil
 //@ // Flush of a lazy flushable: the database is opened first if necessary; if that fails nothing is written and the
 //@ // store can be flushed again later; otherwise the overlay is flushed to the (now) underlying database
@@ -387,5 +399,6 @@ package flushable
 //@   ghost gLFlushN = old(gLFlushN) + 1
 //@   ghost gLFlushRecv = w
 //@   ghost gLFlushR0 = result
+//@   ensures  [wf] gWrOpN >= old(gWrOpN) && w.Flushable.underlying != nil && (w.Flushable.flushableReader.modified != nil ==> ovOK(w.Flushable.flushableReader.modified))
 //@   ensures  [openfailed] old(lazyp(w)) && gProdN == old(gProdN) + 1 && gProdR1 != nil ==> result == gProdR1 && gWrOpN == old(gWrOpN) && gBatchWriteN == old(gBatchWriteN) && w.Flushable.underlying == old(w.Flushable.underlying) && w.producer == old(w.producer) && tN[w.Flushable.flushableReader.modified] == old(tN[w.Flushable.flushableReader.modified])
 //@   ensures  [flushed] result == nil && w.Flushable.flushableReader.modified != nil ==> tN[w.Flushable.flushableReader.modified] == 0 && gWrOpN == old(gWrOpN) + old(tN[w.Flushable.flushableReader.modified]) && gBatchWriteN >= old(gBatchWriteN) + 1 && gBatcherNewBatchRecv == w.Flushable.underlying && w.Flushable.flushableReader.underlying == w.Flushable.underlying
